@@ -250,3 +250,8 @@ def _r08_5(repo: Repo, rep: Report) -> None:
         rep.ok("R08.5", inst, {"sort": inst})
     else:
         rep.violation("R08.5", fi.key, inst, "keys must be ordered by field name iff sort_keys is set (and not otherwise)", loc=fi.loc)
+
+
+_ADDENDUM = ' R08.6: direction discipline -- a function of the serialization half never refers to a helper of the deserialization half (128 mirrored identifiers) and vice versa. R08.7: the text that stands for a field default in the omit_default comparison denotes the default (by-identity binding, or a rendering that round-trips under its guard).'
+EXPLANATION += _ADDENDUM
+LEVEL_TEXT += _ADDENDUM
